@@ -77,10 +77,12 @@ pub fn c17_one_send_reset_open() {
     {
         let mut p = w.store.resolve(w.key);
         assert!(p.state.is_reset() && p.state.is_local_error(), "stream not marked reset");
-        match p.state.ensure_reason(PollReset::Streaming) {
-            Ok(Some(r)) => assert!(u32::from(r) == code, "C17.code: recorded reset code differs from the caller's"),
+        let pr = p.state.ensure_reason(PollReset::Streaming);
+        match &pr {
+            Ok(Some(r)) => assert!(u32::from(*r) == code, "C17.code: recorded reset code differs from the caller's"),
             _ => panic!("reset not recorded"),
         }
+        std::mem::forget(pr);
         // exactly one RST_STREAM, carrying the caller's code, is queued
         match p.pending_send.pop_front(&mut w.buffer) {
             Some(Frame::Reset(r)) => {
@@ -103,10 +105,12 @@ pub fn c17_one_send_reset_open() {
         let mut p = w.store.resolve(w.key);
         w.send.send_reset(code2.into(), Initiator::User, &mut w.buffer, &mut p, &mut w.counts, &mut w.task);
         assert!(p.pending_send.is_empty(), "C17.one: a second reset queued another RST_STREAM");
-        match p.state.ensure_reason(PollReset::Streaming) {
-            Ok(Some(r)) => assert!(u32::from(r) == code, "a second reset overwrote the first code"),
+        let pr = p.state.ensure_reason(PollReset::Streaming);
+        match &pr {
+            Ok(Some(r)) => assert!(u32::from(*r) == code, "a second reset overwrote the first code"),
             _ => panic!("reset lost"),
         }
+        std::mem::forget(pr);
     }
     kani::cover!(a > 0, "capacity_returned");
     kani::cover!(true, "end");
